@@ -366,11 +366,35 @@ def unset_default(ctx: Ctx, rule: str) -> None:
                "" if ok else "the default unset mode of the unset step overrides a mode the user gave (generic or per vm), or is no longer applied per vm")
 
 
+def traversal_errors_surface(ctx: Ctx, rule: str) -> None:
+    """A worker whose traversal dies (RuntimeError of the spawner, AssertionError of the graph, ...) has run nothing more: the step must not
+    look successful.  The only report of such a death is the exception out of run_workers (with_cartesian_graph looks at recorded results
+    only), so nothing between traverse_object_trees and the caller may swallow it."""
+    fref = "plugins/runner.py:TestRunner.run_workers"
+    fn = ctx.repo.func(fref)
+    ctx.touch(fref)
+    swallow = []
+    for t in ast.walk(fn.node):
+        if isinstance(t, ast.Try):
+            for h in t.handlers:
+                if not any(isinstance(x, ast.Raise) for x in ast.walk(h)):
+                    swallow.append(f"line {h.lineno}: except {ast.unparse(h.type) if h.type else ''}")
+    gathers = [c for c in calls_in(fn.node) if call_name(c) == "gather"]
+    lenient = [c for c in gathers if any(k.arg == "return_exceptions" and not (isinstance(k.value, ast.Constant) and k.value.value is False) for k in c.keywords)]
+    trav = [c for c in calls_in(fn.node) if call_name(c) == "traverse_object_trees"]
+    ok = not swallow and not lenient and len(gathers) == 1 and len(trav) == 1
+    ctx.record(rule, "TABLE", fref, "run_workers: every worker's traverse_object_trees is awaited through one gather without return_exceptions and without a swallowing handler",
+               ok, {"handlers_without_raise": swallow, "gather": [ast.unparse(c)[:80] for c in gathers]},
+               "" if ok else f"an exception that ends a worker's traversal is swallowed in run_workers ({(swallow or ['gather(return_exceptions=...)'])[0]}): the manual step reports success "
+               "although that worker ran nothing more")
+
+
 def run(ctx: Ctx) -> None:
     from .c10 import verdict
 
     ctx.call(verdict, "7", tools_only=True)
     ctx.call(unset_default, "6")
+    ctx.call(traversal_errors_surface, "8")
     ctx.call(chain_loop, "1")
     ctx.call(per_vm_template, "2")
     ctx.call(per_worker_template, "3")
